@@ -366,13 +366,16 @@ def run(c, facts, tier):
 
     # ------------------------------------------------------------ C05.shape: nothing but parser applications in parser functions
     nshape = 0
+    from . import c06 as _c06
+
+    _inlined = set(_c06.inner_summary(b, facts.fn(an.role("parse_inner"))).inlined)
     for key, fn in sorted(facts.fns.items()):
         if fn.test or fn.module[:1] != ("find_parser",) or not F.norm_ty(fn.node["output"]).startswith("PResult<"):
             continue
         if (fn.node.get("generics") or "").strip("<> ") or (fn.impl is not None and (fn.impl.get("generics") or "").strip("<> ")):
             continue  # generic parsers are checked through their instantiations (reachability walk below)
-        if key == an.role("parse_inner"):
-            continue  # the inner parse function is imperative; its statements are checked one by one by C06.empty / C13.*
+        if key == an.role("parse_inner") or key in _inlined:
+            continue  # the inner parse function (and the helpers it is split into) is imperative; its statements are checked one by one by C06.empty / C13.* on the summary, which fails closed on anything it does not understand
         fb = b.fn_ir(key)
         nshape += 1
         extra = [src(x)[:70] for x in fb.get("unknown", [])]
